@@ -135,11 +135,26 @@ def _strip_g(h):
 
 
 def observe_binary(bins, repo, fmt, gitlog=None, cwd=None, cdir=None, how=0):
-    """how: 0 = `-C <repo>` from /, 1 = `-C .` from inside the repository, 2 = no -C at all from inside the repository, 3 = `--directory=<repo>/`"""
+    """how: 0 = `-C <repo>` from /, 1 = `-C .` from inside the repository, 2 = no -C at all from inside the repository, 3 = `--directory=<repo>/`,
+    4 = no -C, started in an (empty, hence invisible to git) directory one to three levels below the work-tree root: zerv has to walk up"""
     env = core.base_env(bins, home=os.path.dirname(repo.path), gitlog=gitlog, use_gitshim=gitlog is not None)
-    where = [["-C", cdir or repo.path], ["-C", "."], [], ["--directory=%s/" % repo.path]][how]
+    where = [["-C", cdir or repo.path], ["-C", "."], [], ["--directory=%s/" % repo.path], []][how]
     if how in (1, 2):
         cwd = repo.path
+    sub = None
+    if how == 4:
+        sub = os.path.join(repo.path, "zv-sub")
+        cwd = os.path.join(sub, *["d%d" % i for i in range(len(repo.commits) % 3)])
+        os.makedirs(cwd, exist_ok=True)
+    try:
+        return _observe_binary(bins, env, where, fmt, cwd)
+    finally:
+        if sub:
+            import shutil
+            shutil.rmtree(sub, ignore_errors=True)
+
+
+def _observe_binary(bins, env, where, fmt, cwd):
     argv = ["version"] + where + ["--input-format", fmt, "--output-format", "zerv"]
     r = core.run_zerv(bins, argv, env=env, cwd=cwd or "/")
     if r["timeout"]:
@@ -190,7 +205,9 @@ def work_history(bins, seed, idx, nops, nobs_cap, tmp):
             e = expect(repo, fmt, dirty)
             obs_p = observe_probe(pr, repo, fmt)
             gitlog = os.path.join(os.path.dirname(path), "git.log") if rng.random() < 0.1 else None
-            obs_b = observe_binary(bins, repo, fmt, gitlog=gitlog, how=rng.choice([0, 0, 1, 2, 3]))
+            how = rng.choice([0, 0, 1, 2, 3, 4])
+            obs_b = observe_binary(bins, repo, fmt, gitlog=gitlog, how=how)
+            st("pointed_at_repo:" + ["-C abs", "-C .", "cwd=root", "--directory=abs/", "cwd=subdirectory (walk up)"][how])
             if gitlog and os.path.exists(gitlog):
                 for line in open(gitlog):
                     try:
